@@ -1,7 +1,8 @@
 #!/bin/bash
 # confirm_seed.sh <prop> <n> : confirm a seeded change in its scratch worktree /tmp/seed_<prop> and store it under /verif/seeded/<prop>_<n>/
+# (round 2: SEED_WT_PREFIX=/tmp/seed2_ SEED_N_OFFSET=2)
 # checks: patch applies, suite has regressions=0 with the patch, demo fails with the patch, demo passes without it
-P=$1; N=$2; WT=/tmp/seed_$P; OUT=/verif/seeded/${P}_$N
+P=$1; N=$2; WT=${SEED_WT_PREFIX:-/tmp/seed_}$P; OUT=/verif/seeded/${P}_$((N+${SEED_N_OFFSET:-0}))
 cd $WT || exit 2
 git checkout -q -- src; rm -f tests/seed_demo_*.rs
 mkdir -p $OUT
